@@ -42,6 +42,8 @@ const gateMailbox = "zz-gate"
 
 var syncDeadline = 1000 * time.Millisecond
 
+var gateTimeouts int
+
 type evt struct {
 	del    bool
 	mb, id string
@@ -235,11 +237,16 @@ func runHub(n int, ops []string) []string {
 				continue
 			}
 			hub.Dispatch(event.MessageMetadata{Mailbox: gateMailbox, ID: "g"})
+			wait := syncDeadline
+			if gateTimeouts >= 10 { // the tree is broken in a way that defeats the gate: do not spend minutes on it
+				wait = 50 * time.Millisecond
+			}
 			select {
 			case <-g.entered:
 				gated = true
 				outs = append(outs, "ok")
-			case <-time.After(syncDeadline):
+			case <-time.After(wait):
+				gateTimeouts++
 				outs = append(outs, "blocked")
 			}
 		case f[0] == "u":
